@@ -605,3 +605,11 @@ mod test {
     test_match("($P) => $F($P)", "(x) => bar(x)");
   }
 }
+
+#[cfg(feature = "verif-hooks")]
+impl<L: Language> Pattern<L> {
+  /// verification hook: the private `root_kind` of contextual patterns
+  pub fn verif_root_kind(&self) -> Option<u16> {
+    self.root_kind
+  }
+}
